@@ -130,4 +130,4 @@ RULE = ("TLC explores the bounded Proxy configuration(s) exhaustively (clients x
         "client response (status, labels, Age/ttl, self-describing body, validators) is judged by TLC (ProxyTrace). "
         "distinct_nontrivial = distinct (step kind, status/kind) pairs replayed.")
 ASSUME = ["plain-HTTP transport in this check (CONNECT is covered by C10)", "one tick = 10 s of header time; Age/ttl compared with a 1 s tolerance",
-          "bounds: <=2 resources, 3 clients, 18 header forms, 5 validator kinds"]
+          "bounds: <=2 resources, 3 clients, 19 header forms, 5 validator kinds"]
